@@ -124,7 +124,7 @@ def run(chk, replay=None):
         import checks.c01 as c01
         return c01.do_replay(replay)
     quick = chk.tier == "quick"
-    progs = corelib.gen_programs(chk, 120 if quick else 2000, "gdbg", size=30 if quick else 50, focus="dbg")
+    progs = corelib.gen_programs(chk, 120 if quick else 1000, "gdbg", size=30 if quick else 50, focus="dbg")
     acc = corelib.check_terms(chk, progs)
     outcomes = {}
 
